@@ -58,6 +58,15 @@ def gen_cases(rng, tier):
               {"expr": "(x**2 + 1)**3 - x**6 + b", "var": "x", "deg": 4, "powers": [0, 2, 4, 6]},
               {"expr": "a - x*(x + 2) + (x + 1)**2", "var": "x", "deg": 0, "powers": [0, 1, 2]},
               {"expr": "a*x - x**3/2 - 3*x**2/2 + (x + 1)**3/2", "var": "x", "deg": 1, "powers": [0, 1, 2, 3]}]
+    # expressions that are NOT a sum at the top level (the bare variable, a power, a product, a power of a sum), single terms
+    # with a negative, float or symbolic coefficient, written with and without parentheses
+    for d in range(1, 6):
+        for form, deg in ((f"x**{d}", d), (f"-x**{d}", d), (f"0.5*x**{d}", d), (f"-2.5*a*x**{d}", d), (f"a*b*x**{d}/3", d),
+                          (f"x**{d}*(x + 1)", d + 1), (f"(x + a)**{d}", d), (f"(a*x**2 + b)**{d}", 2 * d), (f"x*(b*x + 1)*(x - 2)**{d}", d + 2)):
+            cases.append({"expr": form, "var": "x", "deg": deg, "powers": [deg]})
+    cases += [{"expr": "x", "var": "x", "deg": 1, "powers": [1]}, {"expr": "-x", "var": "x", "deg": 1, "powers": [1]},
+              {"expr": "-a", "var": "x", "deg": 0, "powers": [0]}, {"expr": "0.25*a", "var": "x", "deg": 0, "powers": [0]},
+              {"expr": "x*a", "var": "x", "deg": 1, "powers": [1]}, {"expr": "1.5*x + 0.5", "var": "x", "deg": 1, "powers": [0, 1]}]
     for c in ("5", "a", "a*b + 2", "7/2"):              # constants in x
         cases.append({"expr": c, "var": "x", "deg": 0, "powers": [0]})
     return cases
